@@ -54,6 +54,18 @@ CHECKS = {
         "Tied by applying the extracted selection to the expected walker entries of random trees with nested .styluaignore files, negations, hidden entries, non-Lua files, overlapping and repeated arguments, and comparing with the files the binary processed (and how many times).",
    design="5/C16", technique="Coq proof on the selection glue + binary correspondence with an independent ignore matcher as oracle",
    note=BASE_NOTE + "ignore/globset are modelled by an independent matcher for the generated pattern class; one dependency quirk is a listed known finding."),
+ "C20": dict(
+   text="Finite theorems decided by computation on tables rs2v regenerates from lib.rs, opt.rs, config.rs, editorconfig.rs and README.md on every run: the clap enums are the library enums, every option has a flag, load_overrides applies every flag, "
+        "the README lists exactly the variants and the true defaults, the .editorconfig vocabulary is the lower-cased variant names. Tied by an exhaustive run: every option x documented value x carrier (toml, flag in three spellings, .editorconfig) through the binary, "
+        "byte-compared with the library's output for that Config; malformed configuration files must exit 2 and touch nothing.",
+   design="5/C20", technique="Coq proof by computation on tables regenerated from source + exhaustive option x value x carrier run of the binary",
+   note=BASE_NOTE + "Decoding itself (serde, clap, ec4rs) is observed, not modelled; the option space is finite and enumerated completely."),
+ "C17": dict(
+   category="proof",
+   text="Small theorems on the stdin process model (prints exactly the formatted text; nothing and status 2 on a parse error; input passed through for an ignored --stdin-filepath under --respect-ignores; never writes). The substance is the tie: the extracted model "
+        "against `stylua -` on hand cases, a multi-megabyte program and repository inputs under every stdin-compatible option, with the working directory's bytes and mtimes compared. Partial: buffering and locking are runtime behaviour.",
+   design="5/C17", technique="Coq process model (small theorems) + binary correspondence on stdin runs",
+   note=BASE_NOTE + "Partial by nature: pipe buffering / large writes are exercised once, not modelled."),
 }
 PENDING = {}
 def main():
